@@ -57,11 +57,44 @@ def _wallet_form(kind, x, y, coin, minor, major, pid, as_objects):
                      opt(lambda: tx(w.IntegratedAddress(unhx(pid))))])
 
 
-IMPL = {"xmrwallet": _wallet}
+from harness.props.addr_common import IMPL as _ADDR_IMPL
+IMPL = {"xmrwallet": _wallet, "addrdec": _ADDR_IMPL["addrdec"]}
 COINS = [c.name for c in MoneroCoins]
 
 
+def crafted_addresses(rng, tier):
+    """addresses with correct length, network byte, payment id and Keccak checksum in which one of the two keys is not a curve point
+    (built from the published layout with the library's hash and Monero Base58 codecs, not with the address classes)"""
+    from bip_utils import Base58XmrEncoder, Ed25519MoneroPublicKey
+    from bip_utils.utils.crypto import Kekkak256
+    good, bad = [], []
+    while len(good) < 2 or len(bad) < 2:
+        b = bytes(rng.randrange(256) for _ in range(32))
+        (good if Ed25519MoneroPublicKey.IsValidBytes(b) else bad).append(b)
+    good = [Monero.FromSeed(bytes(rng.randrange(256) for _ in range(32))).PublicSpendKey().RawCompressed().ToBytes(), good[0]]
+    for coin in MoneroCoins:
+        conf = Monero.FromSeed(bytes(range(1, 33)), coin).CoinConf()
+        for nv, pid in ((conf.AddrNetVersion(), None), (conf.SubaddrNetVersion(), None), (conf.IntegratedAddrNetVersion(), bytes(rng.randrange(256) for _ in range(8)))):
+            for cls, sk, vk in (("crafted-valid", good[0], good[1]), ("neg-crafted-view-off-curve", good[0], bad[0]), ("neg-crafted-spend-off-curve", bad[1], good[1]),
+                                ("neg-crafted-both-off-curve", bad[0], bad[1])):
+                body = nv + sk + vk + (pid or b"")
+                addr = Base58XmrEncoder.Encode(body + Kekkak256.QuickDigest(body)[:4])
+                if pid is None:
+                    yield Case("addrdec", ["xmr", tx(addr), "net_ver=" + hx(nv)], cls)
+                else:
+                    yield Case("addrdec", ["xmrint", tx(addr), "net_ver=" + hx(nv), "payment_id=" + hx(pid)], cls)
+
+
 def gen(rng, tier):
+    yield from crafted_addresses(rng, tier)
+    # the same keys on every network, one after the other in one process: each wallet answers with its own network's version bytes
+    for r in range(2 if tier == "quick" else 20):
+        x = bytes(rng.randrange(256) for _ in range(32))
+        pid = bytes(rng.randrange(256) for _ in range(8))
+        order = list(COINS)
+        rng.shuffle(order)
+        for coin in order:
+            yield Case("xmrwallet", [("seed", "bip44")[r % 2], hx(x), "-", coin, 1 + r, 2, hx(pid)], "same-keys-every-network")
     n = 60 if tier == "quick" else 2500
     for i in range(n):
         coin = COINS[i % len(COINS)]
@@ -143,6 +176,23 @@ def relations(rng, tier, rpt):
                 rep("Monero wallet: the answer for %s depends on what the same wallet object was asked before" % ("IntegratedAddress(payment id)" if kind == "int" else "Subaddress(minor, major)"),
                     "%s %s after %s" % (seed.hex(), arg.hex() if kind == "int" else arg, [c[0] for c in calls]), got, want)
                 break
+    # wallets with the same keys on different networks alive together: each one's addresses decode under its OWN version bytes
+    for i in range(2 if tier == "quick" else 30):
+        seed = bytes(rng.randrange(256) for _ in range(32))
+        pid = bytes(rng.randrange(256) for _ in range(8))
+        ws = [Monero.FromSeed(seed, MoneroCoins[c]) for c in COINS]
+        ws += [Monero.FromWatchOnly(w.PrivateViewKey().Raw().ToBytes(), w.PublicSpendKey().RawCompressed().ToBytes(), w.CoinConf() and MoneroCoins[c]) for w, c in zip(ws[:3], COINS[1:] + COINS[:1])]
+        for w in ws:
+            n += 1
+            conf = w.CoinConf()
+            for what, addr, dec in (("PrimaryAddress()", opt(lambda: w.PrimaryAddress()), lambda a: XmrAddrDecoder.DecodeAddr(a, net_ver=conf.AddrNetVersion())),
+                                    ("Subaddress(1, 2)", opt(lambda: w.Subaddress(1, 2)), lambda a: XmrAddrDecoder.DecodeAddr(a, net_ver=conf.SubaddrNetVersion())),
+                                    ("IntegratedAddress(pid)", opt(lambda: w.IntegratedAddress(pid)),
+                                     lambda a: XmrIntegratedAddrDecoder.DecodeAddr(a, net_ver=conf.IntegratedAddrNetVersion(), payment_id=pid))):
+                r = opt(lambda: dec(addr).hex())
+                if r.startswith("!"):
+                    rep("with wallets of the same keys on several networks alive, %s of the %s wallet does not decode under its own network version" % (what, conf.CoinNames().Name()),
+                        "%s pid=%s" % (seed.hex(), pid.hex()), "%s -> %s" % (addr, r), "decodes to the wallet's keys")
     # output-dependent: integrated addresses one of whose 8-byte Base58 blocks is all 0xff (public view key ending in 0xff and a
     # payment id starting with seven 0xff bytes share block 8); they must decode back like any other
     found = 0
